@@ -598,7 +598,9 @@ class Parser:
                 raise FFIError(
                     "multiple declarations of %s (for interactive usage, "
                     "try cdef(xx, override=True))" % (name,))
-        assert '__dotdotdot__' not in name.split()
+        if '__dotdotdot__' in name.split():
+            raise FFIError('bad usage of "..." (it cannot be the name of %s)'
+                           % (name.split()[0],))
         self._declarations[name] = (obj, quals)
         if included:
             self._included_declarations.add(obj)
